@@ -28,7 +28,9 @@ def gen_case(rng, tier, i):
     nmax = 7 if tier == "quick" else rng.choice([7, 12, 20])
     kind = rng.choices(["cumsum", "inverse", "commute", "cumint"], [6, 1, 2, 2])[0]
     n_axes = 2 if kind == "commute" and rng.random() < 0.8 else None
-    layout = Layout.random(rng, n_axes=n_axes, nmax=nmax, max_extra=2)
+    # axis names of any length (a plain string naming an axis is one name, not a sequence of letters)
+    layout = Layout.random(rng, n_axes=n_axes, nmax=nmax, max_extra=2,
+                           names=rng.choice([None, None, ["lon", "lat", "depth"], ["xi", "eta", "s_rho"]]))
     if kind == "commute" and len(layout.axes) < 2:
         kind = "cumsum"
     if kind == "inverse":
